@@ -82,10 +82,12 @@ func VerifH_serve() {
 	vnd.Assert(readCalls == 2, "C16 the receive loop keeps reading after a datagram")
 	vnd.Assert(err == nil, "C16 the receive loop ends cleanly when the socket is closed")
 	vnd.Assert(readLen == MaxDatagram, "C16 every receive gets a full-size buffer, whatever length the recycled buffer was left with")
+	vnd.Assert(readLen == MaxDatagram, "C13 what the handler chain is run on is the datagram as received (no truncation by a recycled buffer)")
 	if readLen < readN {
 		return
 	}
 	// the datagram is handled in its own goroutine, which gets exactly the bytes received
 	vnd.RunGoroutines()
 	vnd.Assert(seenLen == readN, "C16 the handler goroutine is given exactly the received datagram")
+	vnd.Assert(seenLen == readN, "C13 what the handler chain is run on is the datagram as received (all of it)")
 }
